@@ -178,6 +178,17 @@ static void do_zucks(char **w, int z256) {
 	if (z256) { zuc256_init(&st, key.p, iv.p); zuc256_generate_keystream(&st, n, z); } else { zuc_init(&st, key.p, iv.p); zuc_generate_keystream(&st, n, z); }
 	putwords(z, n); free(z); freeb(&key); freeb(&iv);
 }
+/* zuckss key iv c1,c2,... | zuc256kss ... : one state, one call per item: a number n = zuc_generate_keystream(n), `w` = zuc_generate_keyword */
+static void do_zuckss(char **w, int z256) {
+	buf_t key = hex2buf(w[1]), iv = hex2buf(w[2]); ZUC_STATE st; uint32_t z[64]; size_t tot = 0; char *p = w[3];
+	if (z256) zuc256_init(&st, key.p, iv.p); else zuc_init(&st, key.p, iv.p);
+	while (*p && tot < 32) {
+		if (*p == 'w') { z[tot++] = z256 ? zuc256_generate_keyword(&st) : zuc_generate_keyword(&st); p++; }
+		else { size_t n = (size_t)strtoul(p, &p, 10); if (n > 8) n = 8; if (z256) zuc256_generate_keystream(&st, n, z + tot); else zuc_generate_keystream(&st, n, z + tot); tot += n; }
+		if (*p == ',') p++;
+	}
+	putwords(z, tot); freeb(&key); freeb(&iv);
+}
 /* zucenc key iv data  (one-shot zuc_encrypt on an exactly sized input) */
 static void do_zucenc(char **w) {
 	buf_t key = hex2buf(w[1]), iv = hex2buf(w[2]), d = hex2buf(w[3]); ZUC_STATE st; uint8_t *o = malloc(d.n ? d.n : 1);
@@ -297,6 +308,8 @@ static void handle(size_t nw, char **w) {
 	else if (!strcmp(op, "aesctr") && nw == 4) do_aesmode(w, 2);
 	else if (!strcmp(op, "zucks") && nw == 4) do_zucks(w, 0);
 	else if (!strcmp(op, "zuc256ks") && nw == 4) do_zucks(w, 1);
+	else if (!strcmp(op, "zuckss") && nw == 4) do_zuckss(w, 0);
+	else if (!strcmp(op, "zuc256kss") && nw == 4) do_zuckss(w, 1);
 	else if (!strcmp(op, "zucenc") && nw == 4) do_zucenc(w);
 	else if (!strcmp(op, "zucencs") && nw == 4) do_zucencs(w);
 	else if (!strcmp(op, "zuceea") && nw == 7) do_zuceea(w);
